@@ -50,6 +50,13 @@ func runControls(r *Run, def *propertyDef, repo string) {
 	for _, p := range neg {
 		jobs = append(jobs, job{p, "negative", "", strings.TrimSuffix(filepath.Base(p), ".patch")})
 	}
+	// independently seeded changes (written by fault-seeding agents that saw only the property
+	// text): recorded as evidence of what the rules catch, never part of the verdict
+	seeds, _ := filepath.Glob(filepath.Join(r.Root, "seeded", def.id+"-*", "patch.diff"))
+	sort.Strings(seeds)
+	for _, p := range seeds {
+		jobs = append(jobs, job{p, "seeded", def.id + ".", filepath.Base(filepath.Dir(p))})
+	}
 	results := make([]controlResult, len(jobs))
 	sem := make(chan struct{}, 4)
 	var wg sync.WaitGroup
@@ -111,6 +118,13 @@ func runControls(r *Run, def *propertyDef, repo string) {
 				} else {
 					res.Outcome = fmt.Sprintf("FAILED: expected %s to fire; exit=%d fired=%v", j.expect, code, fired)
 				}
+			case "seeded":
+				if code == 1 && len(fired) > 0 {
+					res.Outcome = "caught"
+					res.FiredBy = strings.Join(uniqStrings(fired), " ")
+				} else {
+					res.Outcome = "missed"
+				}
 			case "negative":
 				if code == 0 && len(fired) == 0 {
 					res.Outcome = "silent"
@@ -123,8 +137,15 @@ func runControls(r *Run, def *propertyDef, repo string) {
 	}
 	wg.Wait()
 	nFired, nSilent, nSkipped := 0, 0, 0
+	nCaught, nMissed := 0, 0
 	for _, res := range results {
 		switch {
+		case res.Kind == "seeded":
+			if res.Outcome == "caught" {
+				nCaught++
+			} else if res.Outcome == "missed" {
+				nMissed++
+			}
 		case res.Outcome == "fired":
 			nFired++
 		case res.Outcome == "silent":
@@ -136,6 +157,19 @@ func runControls(r *Run, def *propertyDef, repo string) {
 		}
 	}
 	r.extra["controls"] = results
-	r.extra["controls_summary"] = fmt.Sprintf("%d positive controls fired, %d negative controls silent, %d skipped (do not apply to this tree)", nFired, nSilent, nSkipped)
+	r.extra["controls_summary"] = fmt.Sprintf("%d positive controls fired, %d negative controls silent, %d skipped (do not apply to this tree); independently seeded changes of this property: %d caught, %d missed (informational)", nFired, nSilent, nSkipped, nCaught, nMissed)
 	fmt.Printf("  controls: %s\n", r.extra["controls_summary"])
+}
+
+func uniqStrings(in []string) []string {
+	seen := map[string]bool{}
+	var out []string
+	for _, s := range in {
+		if !seen[s] {
+			seen[s] = true
+			out = append(out, s)
+		}
+	}
+	sort.Strings(out)
+	return out
 }
